@@ -9,7 +9,8 @@
 From CG Require Export Model.Expr.
 
 (* Event payload ids encode (tag, series): id = tag * SER + series; series = 0 means the event
-   has no recurring_event_id (a static event); series k > 0 is the k-th series added. *)
+   has no recurring_event_id; series k > 0 is the id of the k-th series added.  A static event
+   may carry a series id too (a copy of an occurrence, an event of another calendar). *)
 Definition SER : N := 100.
 Definition series_of (i : ivl) : N := match pl i with Rich id => N.modulo id SER | Plain => 0%N end.
 Definition tag_of (i : ivl) : N := match pl i with Rich id => N.div id SER | Plain => 0%N end.
@@ -81,7 +82,7 @@ Definition in_list (x : ivl) (l : list ivl) : bool := existsb (ivl_eqb x) l.
 Fixpoint sl_remove1 (x : ivl) (l : list ivl) : list ivl :=
   match l with [] => [] | y :: r => if ivl_eqb x y then r else y :: sl_remove1 x r end.
 
-(* _remove_interval for an event without recurring_event_id *)
+(* _remove_interval: removal from the static store *)
 Definition remove_static (s : mstate) (ev : ivl) : mstate * bool :=
   if in_list ev (m_static s)
   then (mkM (sl_remove1 ev (m_static s)) (m_pats s) (m_seq s), true)
@@ -109,7 +110,11 @@ Definition mstep (s : mstate) (o : mop) : mstate * (list bool * list ivl) :=
     let k := N.succ (m_seq s) in
     (mkM (m_static s) (m_pats s ++ [mkP k period phase dur [] tag]) k, ([true], []))
   | MRemove ev =>
-    let '(s', ok) := if N.eqb (series_of ev) 0 then remove_static s ev else remove_instance s ev in
+    (* _remove_interval: a stored interval is removed as such, whatever fields it carries; only an
+       interval that is not stored and has a recurring_event_id is treated as an occurrence *)
+    let '(s1, ok1) := remove_static s ev in
+    let '(s', ok) := if ok1 then (s1, true)
+                     else if N.eqb (series_of ev) 0 then (s, false) else remove_instance s ev in
     (s', ([ok], []))
   | MRemoveSeries ev =>
     if N.eqb (series_of ev) 0 then let '(s', ok) := remove_static s ev in (s', ([ok], []))
